@@ -156,6 +156,8 @@ def run(ctx: core.Ctx):
 
     from .. import strided
     strided.probe(ctx, "a non-contiguous view of an argument gives exactly the result of its contiguous copy (the kernel reads the cells it was given)", only=['ws2doptv', 'ws2doptvp', 'ws2doptvplc'])
+    from .. import accessor_args
+    accessor_args.nodata_precedence(ctx, ['whitsvc', 'whitsvc_p'])
     # _tyx variant and the accessor (sgrid float32 = log10 lopt; naming)
     for k in range(ctx.budget(4, 30)):
         nt, ny, nx = rng.choice([8, 12, 36]), 2, 2
